@@ -214,6 +214,49 @@ func TestCheck(t *testing.T) {
 				}
 				expect(key, "register", data, nm.label == "self", nm.id.ID, fmt.Sprintf("addrs=%v", addrs), "foreign-signer", "it was sealed by another identity than the provider it names")
 			}
+			// address lists with an unparseable entry at every position: the
+			// constructor refuses, or what it builds reads back with every address
+			if nm.label == "self" {
+				good := []string{"/ip4/1.2.3.4/tcp/9999", "/ip6/2001:db8::1/tcp/443/https", "/dns/example.com/tcp/80/http"}
+				for n := 1; n <= 4; n++ {
+					for badAt := 0; badAt < n; badAt++ {
+						for bi, bad := range []string{"not-a-multiaddr", "", "/ip4/999.1.1.1/tcp/1"} {
+							key := fmt.Sprintf("register-bad-address|%s|n%d|at%d|b%d", kt, n, badAt, bi)
+							if !r.Mine(key) {
+								continue
+							}
+							r.Eval(key, true)
+							var addrs []string
+							for i, g := 0, 0; i < n; i++ {
+								if i == badAt {
+									addrs = append(addrs, bad)
+								} else {
+									addrs = append(addrs, good[g%len(good)])
+									g++
+								}
+							}
+							var data []byte
+							var merr error
+							if pn, pm := vp.Guard(func() { data, merr = model.MakeRegisterRequest(nm.id.ID, signer.Priv, addrs) }); pn {
+								r.Violation("register:make-panic", key, firstLine(pm), nil)
+								continue
+							}
+							if merr != nil {
+								r.Outcome("register-bad-address-refused")
+								continue
+							}
+							rec, rerr := model.ReadRegisterRequest(data)
+							if rerr != nil {
+								r.Violation("register:constructed-request-rejected", key, fmt.Sprintf("MakeRegisterRequest accepted %q but ReadRegisterRequest rejects the result: %v", addrs, rerr), nil)
+								continue
+							}
+							if len(rec.Addrs) != len(addrs) {
+								r.Violation("register:fields-not-returned:addresses", key, fmt.Sprintf("a request built from %d addresses %q reads back with %d: %v", len(addrs), addrs, len(rec.Addrs), rec.Addrs), nil)
+							}
+						}
+					}
+				}
+			}
 		}
 	}
 
